@@ -1,4 +1,5 @@
 import ShredModel.Drv.Plan
+import ShredModel.Drv.Async
 /-!
 Line-protocol front end of the model. One request per line, one answer per line. The first
 word selects the sub-model; anything else goes to the builder / task model.
@@ -9,9 +10,13 @@ open Shred
 
 structure St where
   plan : Drv.Plan.St := {}
+  asyncd : Drv.Async.St := {}
 
 def step (st : St) (line : String) : St × String :=
   match line.trimAscii.toString.splitOn " " with
+  | "asyncd" :: ws =>
+    let (s, o) := Drv.Async.step st.asyncd ws
+    ({ st with asyncd := s }, o)
   | ws =>
     let (s, o) := Drv.Plan.step st.plan ws
     ({ st with plan := s }, o)
